@@ -81,7 +81,12 @@ def run(prog: Program, ctx: Ctx) -> None:  # noqa: PLR0912,PLR0915
     mm = prog.function(f"{MG}._merge_stubs_members")
     K = {k: it.enum("_griffe.enumerations.Kind", k) for k in ("MODULE", "CLASS", "FUNCTION", "ATTRIBUTE")}
     events: list[tuple] = []
-    for name in ("_merge_module_stubs", "_merge_class_stubs", "_merge_function_stubs", "_merge_attribute_stubs"):
+    # the kind-specific merges are private helpers: every module-level function of the merger other than the two under test and the public entry is
+    # replaced by a recording stand-in, and which one serves which kind is read off a calibration row (one runtime member, one stub member of the
+    # same kind), not off their names
+    HANDLERS = [f_.name for f_ in prog.functions.values() if f_.module.name == MG and f_.cls is None and f_.outer is None
+                and f_.name not in ("_merge_stubs_members", "_merge_stubs_overloads", "merge_stubs") and len(f_.params) >= 2]
+    for name in HANDLERS:
         it.stubs[f"{MG}.{name}"] = (lambda n: (lambda _i, *a, **_k: events.append((n, a))))(name)
 
     def member(kind: str, *, alias: bool = False, broken: bool = False, label: str = "") -> Obj:
@@ -102,7 +107,21 @@ def run(prog: Program, ctx: Ctx) -> None:  # noqa: PLR0912,PLR0915
             o.attrs["final_target"] = o.attrs["target"] = o  # a resolved alias standing for its target (the chain rows below tell the two apart)
         return o
 
-    handler = {"MODULE": "_merge_module_stubs", "CLASS": "_merge_class_stubs", "FUNCTION": "_merge_function_stubs", "ATTRIBUTE": "_merge_attribute_stubs"}
+    handler: dict[str, str] = {}
+    for k_ in K:
+        events.clear()
+        c_rt, c_st = member(k_, label="runtime"), member(k_, label="stub")
+        c_rt.attrs["is_imported"] = c_st.attrs["is_imported"] = False
+        c_members = {"m": c_rt}
+        try:
+            it.call(mm, Obj(None, {"members": c_members, "imports": {}, "get_member": Native(lambda n, c_members=c_members: c_members[n]),
+                                   "set_member": Native(lambda n, v: events.append(("set_member", (n, v)))), "path": "p"}),
+                    Obj(None, {"members": {"m": c_st}, "imports": {}}))
+        except Raised:
+            pass
+        hs = [e for e in events if e[0] in HANDLERS]
+        hs = [e for e in hs if e[1][:2] == (c_rt, c_st)]
+        handler[k_] = hs[-1][0] if hs else f"<no merge helper called for {k_}>"  # (the last one called with the pair; the rows below demand it is the only one)
     rows = 0
     for present, stub_alias, ok_, sk, broken, also_imported in itertools.product((True, False), (False, True), K, K, (False, True), (False, True)):
         if not present and (broken or ok_ != "MODULE"):
@@ -195,7 +214,8 @@ def run(prog: Program, ctx: Ctx) -> None:  # noqa: PLR0912,PLR0915
     ctx.rule("R3", "merge_stubs picks the stubs by the .pyi suffix of either argument, merges into the other and returns the regular module; two "
                    "regular modules raise ValueError (which set_member suppresses)")
     ms = prog.function(f"{MG}.merge_stubs")
-    it.stubs[f"{MG}._merge_module_stubs"] = lambda _i, *a, **_k: events.append(("_merge_module_stubs", a))
+    MOD_MERGE = handler["MODULE"] if handler["MODULE"] in HANDLERS else "_merge_module_stubs"
+    it.stubs[f"{MG}.{MOD_MERGE}"] = lambda _i, *a, **_k: events.append(("_merge_module_stubs", a))
     for s1, s2 in itertools.product((".py", ".pyi"), repeat=2):
         events.clear()
         m1 = Obj(None, {"filepath": PurePosixPath(f"/s/pkg/mod{s1}")}, label=f"mod1{s1}")
@@ -217,7 +237,7 @@ def run(prog: Program, ctx: Ctx) -> None:  # noqa: PLR0912,PLR0915
                 want = "first .pyi taken as stubs"
                 good = raised is None and [e[0] for e in events] == ["_merge_module_stubs"]
         ctx.ob("R3", f"merge_stubs|{s1}|{s2}", good, f"merge_stubs(mod{s1}, mod{s2}): expected {want}; got result={res} raised={raised} events={[e[0] for e in events]}", where(ms))
-    del it.stubs[f"{MG}._merge_module_stubs"]
+    del it.stubs[f"{MG}.{MOD_MERGE}"]
     # implicit merge in set_member: a module set under a name that already holds a module of another file (mod.py / mod.pyi, either order)
     sm = prog.function("_griffe.mixins.SetMembersMixin.set_member")
     itm = Interp(prog, max_depth=60, max_steps=2_000_000)
